@@ -327,6 +327,10 @@ def run(report):
             report.failure("c13-model", "Lean transition system and implementation disagree (property oracle holds)",
                            dict(replay, correspondence="C13 schedules vs Just.Signals.run (record=true)",
                                 model=m, model_unrecorded=mo), no_input=True)
+        # the model's count of forwarded signals against the SIGTERMs the (trapping, reporting) child saw
+        if s["when"] == "during" and s["reaction"] != "dies" and r["child_saw"] is not None and len(r["child_saw"]) != m["forwarded"]:
+            report.failure("c13-model-forwarded", "the Lean transition system forwards %d signal(s), the running command saw %s" % (m["forwarded"], r["child_saw"]),
+                           dict(replay, correspondence="C13 forwarded signals vs Just.Signals.step", model=m), no_input=True)
         if len(samples) < 4 and s["when"] == "during" and s["reaction"] == "exit0":
             samples.append({"schedule": s, "observed": {"exit": r["exit"], "spawned": r["spawned"]}})
     report.coverage.update({
